@@ -152,3 +152,126 @@ Section CloseStream.
     rewrite Ew2. change (k_tr cs) with (k_tr c1). rewrite Ew1. reflexivity.
   Qed.
 End CloseStream.
+
+(* ====================================================================================================== *)
+(* client-initiated direction: the client has sent its Close (closing); the server's Close completes the handshake *)
+Lemma send_frame_closing_writes c op r p : k_closing c = true -> writes (k_tr (fst (send_frame c op r p))) = writes (k_tr c).
+Proof. intros H. destruct (send_refused_after_close c op r p (or_introl H)) as (x & _ & _ & E). rewrite E. reflexivity. Qed.
+
+Lemma send_data_closing_writes c op p z : k_closing c = true -> writes (k_tr (fst (send_data c op p z))) = writes (k_tr c).
+Proof.
+  intros H. unfold send_data. destruct (k_deflate c) as [d|]; [|apply send_frame_closing_writes; exact H].
+  destruct z; [|apply send_frame_closing_writes; exact H].
+  destruct (k_ctape c) as [|z0 zs]; cbv zeta; destruct (c_reset d); rewrite send_frame_closing_writes by exact H; reflexivity.
+Qed.
+
+Lemma api_send_closing_writes c a : send_action (ACall a) -> k_closing c = true ->
+  writes (k_tr (fst (api_call c a))) = writes (k_tr c).
+Proof.
+  intros Ha H. destruct a; cbn [api_call send_action] in *; try contradiction;
+    try (apply send_data_closing_writes; exact H);
+    (destruct (125 <? blen payload); [reflexivity|apply send_frame_closing_writes; exact H]).
+Qed.
+
+Lemma do_actions_closing_writes acts : Forall send_action acts -> forall c, k_closing c = true ->
+  writes (k_tr (fst (do_actions c acts))) = writes (k_tr c).
+Proof.
+  induction 1 as [|a acts Ha _ IH]; intros c Hc; [reflexivity|].
+  destruct a as [cl|w]; [|contradiction]. cbn [do_actions].
+  destruct (api_send_core c cl Ha) as [(_&_&A3&_) _]. pose proof (api_send_closing_writes c cl Ha Hc) as B.
+  destruct (api_call c cl) as [c1 r]. cbn [fst] in *.
+  rewrite IH by (cbn; congruence). exact B.
+Qed.
+
+Section ClientClose.
+  Variable cf : cfg.
+  Variable app : strategy.
+  Hypothesis app_benign : benign app.
+  Hypothesis no_ping_timeout : zpos (c_ping_timeout cf) = None.
+  Hypothesis no_close_timeout : zpos (c_close_timeout cf) = None.
+
+  Lemma deliver_closing_writes c e : k_closing c = true -> writes (k_tr (fst (deliver app c e))) = writes (k_tr c).
+  Proof. intros H. unfold deliver. rewrite do_actions_closing_writes; [reflexivity|apply app_benign|exact H]. Qed.
+
+  (* housekeeping while closing, with no timeout configured: Polls only; the automatic Ping is refused *)
+  Lemma regular_closing c : k_closing c = true ->
+    snd (regular cf app c) = SOk /\ same_core c (fst (regular cf app c)) /\
+    msg_events (k_tr (fst (regular cf app c))) = msg_events (k_tr c) /\
+    writes (k_tr (fst (regular cf app c))) = writes (k_tr c).
+  Proof.
+    intros Hc. unfold regular. destruct (negb (k_ready c)); [repeat split; try reflexivity; apply same_core_refl|].
+    rewrite no_ping_timeout, no_close_timeout.
+    set (t := session_time c).
+    assert (P : exists c1, (match k_poll_start c with
+                 | Some ps => if (t - ps >=? c_poll cf)%Z then deliver app (c <| k_poll_start := Some t |>) EvPoll else (c, SOk)
+                 | None => deliver app (c <| k_poll_start := Some t |>) EvPoll end) = (c1, SOk)
+               /\ same_core c c1 /\ msg_events (k_tr c1) = msg_events (k_tr c) /\ writes (k_tr c1) = writes (k_tr c)).
+    { assert (D : exists c1, deliver app (c <| k_poll_start := Some t |>) EvPoll = (c1, SOk) /\ same_core c c1 /\
+                  msg_events (k_tr c1) = msg_events (k_tr c) /\ writes (k_tr c1) = writes (k_tr c)).
+      { set (cq := c <| k_poll_start := Some t |>).
+        assert (Hcq : k_closing cq = true) by exact Hc.
+        pose proof (deliver_closing_writes cq EvPoll Hcq) as W1.
+        destruct (deliver_benign app app_benign cq EvPoll) as (c1 & E1 & C1 & M1). rewrite E1 in W1.
+        exists c1. split; [exact E1|]. split; [eapply same_core_trans; [|exact C1]; unfold same_core; cbn; tauto|]. split; [exact M1|exact W1]. }
+      destruct (k_poll_start c) as [ps|]; [destruct (_ >=? _)%Z|]; try exact D.
+      exists c. repeat split; try reflexivity. }
+    destruct P as (c1 & E1 & C1 & M1 & W1). rewrite E1.
+    set (c2 := if _ && _ then _ else c1).
+    assert (C2 : same_core c1 c2 /\ msg_events (k_tr c2) = msg_events (k_tr c1) /\ writes (k_tr c2) = writes (k_tr c1)).
+    { unfold c2. destruct (_ && _); [|split; [apply same_core_refl|split; reflexivity]].
+      set (c' := c1 <| k_next_ping := (Conn.ceil_div t (c_ping_rate cf) * c_ping_rate cf)%Z |>).
+      destruct (send_frame_core c' OP_PING false [] ltac:(discriminate)) as [A B].
+      assert (Hc' : k_closing c' = true) by (destruct C1 as (_&_&S3&_); change (k_closing c') with (k_closing c1); congruence).
+      split; [eapply same_core_trans; [|exact A]; unfold same_core; cbn; tauto|]. split; [rewrite B; reflexivity|].
+      rewrite (send_frame_closing_writes c' OP_PING false [] Hc'). reflexivity. }
+    destruct C2 as (C2 & M2 & W2). cbn [fst snd].
+    split; [reflexivity|]. split; [eapply same_core_trans; eauto|]. split; congruence.
+  Qed.
+
+  (* the client is closing, the parser between two frames, no message open *)
+  Definition closing_idle (c : conn) : Prop :=
+    k_closed c = false /\ k_closing c = true /\ k_deflate c = None /\ k_frames c = [] /\ at_boundary (k_ps c) false UAcc.
+
+  (* the server's Close -- empty, or a valid code and a UTF-8 reason, in any length form, followed by ANY bytes -- completes the
+     handshake: exactly one Closed event with the server's code and reason, the websocket is closed (the loop then ends with a
+     graceful Disconnected: closed_ends_gracefully), nothing is written, and nothing after the Close frame is parsed *)
+  Theorem client_close_completed c f lf code reason rest :
+    closing_idle c ->
+    plain f -> f_op f = OP_CLOSE -> f_fin f = true -> blen (f_payload f) <= 125 -> form_ok lf (blen (f_payload f)) = true ->
+    good_close (f_payload f) code reason ->
+    exists c', feedf cf app c (enc_frame f lf ++ rest) = (c', SOk) /\
+      msg_events (k_tr c') = EvClosed code reason :: msg_events (k_tr c) /\
+      k_closed c' = true /\ writes (k_tr c') = writes (k_tr c).
+  Proof.
+    intros (Hcl & Hcg & Hdf & Hfr & Hab) Hpf Hop Hfin Hlen Hform Hgood.
+    assert (Hv : validate_err false (hdr_of f) (blen (f_payload f)) = false).
+    { unfold validate_err, hdr_of. cbn [h_r1 h_r2 h_r3 h_op h_fin]. rewrite Hop, Hfin.
+      replace (125 <? blen (f_payload f)) with false by (symmetry; apply N.ltb_ge; exact Hlen). reflexivity. }
+    assert (Hutf : textual f false = true -> uvalidate UAcc (f_payload f) = Some UAcc).
+    { unfold textual. rewrite Hop. cbn. discriminate. }
+    destruct (pull_one_frame (k_ps c) false UAcc f lf rest UAcc Hab Hpf Hform Hv Hutf) as (s' & Hpull & Hab').
+    rewrite feedf_unfold by (rewrite Hab; unfold fp_ok, st_ok; cbn; lia). unfold feed_body. rewrite Hcl, Hpull.
+    set (cs := c <| k_ps := s' |>).
+    assert (Hvalid : (match code with Some n => invalid_close_code n | None => false end) = false).
+    { destruct Hgood as [(_ & -> & _)|(a & b & _ & _ & -> & Hc)]; [reflexivity|exact Hc]. }
+    assert (Hitem : on_item cf app cs (IFrame f) = on_message cf app cs (MClose code reason)).
+    { unfold on_item, stream_frame. rewrite Hop. change (is_control OP_CLOSE) with true. cbv iota.
+      rewrite (build_plain cs [f] f [] eq_refl) by (constructor; [destruct Hpf as (A & _); exact A|constructor]).
+      cbv zeta. rewrite payload_of_one, Hop. change (OP_CLOSE =? OP_BINARY) with false. change (OP_CLOSE =? OP_TEXT) with false.
+      change (OP_CLOSE =? OP_CLOSE) with true. cbv iota.
+      destruct Hgood as [(-> & -> & ->)|(a & b & -> & Hu8 & -> & Hc)]; [reflexivity|rewrite Hu8; reflexivity]. }
+    rewrite Hitem, (server_close_completes_handshake cf app cs code reason Hcl Hcg Hvalid).
+    unfold feed_yield, in_feed_yield. cbn [on_event].
+    destruct (deliver_benign app app_benign cs (EvClosed code reason)) as (c1 & E1 & (A1&A2&A3&A4&A5&A6&A7&A8) & M1).
+    pose proof (deliver_closing_writes cs (EvClosed code reason) Hcg) as W1. rewrite E1 in W1. cbn [fst] in W1.
+    rewrite E1. cbv beta iota.
+    assert (Hcg1 : k_closing c1 = true) by (rewrite A3; exact Hcg).
+    destruct (regular_closing c1 Hcg1) as (R1 & (S1&S2&S3&S4&S5&S6&S7&S8) & R3 & R4).
+    destruct (regular cf app c1) as [c2 st2]. cbn [fst snd] in *. subst st2. cbv beta iota.
+    set (c3 := c2 <| k_closed := true |> <| k_closing := false |>).
+    exists c3. split.
+    { unfold feedf. cbn [feed]. change (k_closed c3) with true. reflexivity. }
+    change (k_tr c3) with (k_tr c2).
+    split; [rewrite R3, M1; reflexivity|]. split; [reflexivity|]. rewrite R4, W1. reflexivity.
+  Qed.
+End ClientClose.
